@@ -243,3 +243,70 @@ func init() {
 		return fmt.Sprintf("%x-%x-%x-%x-%x", b[0:4], b[4:6], b[6:8], b[8:10], b[10:16])
 	}
 }
+
+// reflect.DeepEqual: structural equality with Go's rules for nil versus empty
+// slices and maps (nilShapeDiffers), then the content comparison of deepEqTerm.
+func nilShapeDiffers(a, b value, depth int) bool {
+	if depth > 60 {
+		return false
+	}
+	switch x := a.(type) {
+	case []value:
+		y, ok := b.([]value)
+		if !ok {
+			return false
+		}
+		if (x == nil) != (y == nil) {
+			return true
+		}
+		if blobOf(x) != nil || blobOf(y) != nil || sigOf(x) != nil || sigOf(y) != nil || len(x) != len(y) {
+			return false
+		}
+		for k := range x {
+			if nilShapeDiffers(x[k], y[k], depth+1) {
+				return true
+			}
+		}
+	case structure:
+		if y, ok := b.(structure); ok && len(x) == len(y) {
+			for k := range x {
+				if nilShapeDiffers(x[k], y[k], depth+1) {
+					return true
+				}
+			}
+		}
+	case array:
+		if y, ok := b.(array); ok && len(x) == len(y) {
+			for k := range x {
+				if nilShapeDiffers(x[k], y[k], depth+1) {
+					return true
+				}
+			}
+		}
+	case *value:
+		if y, ok := b.(*value); ok && x != nil && y != nil && x != y {
+			return nilShapeDiffers(*x, *y, depth+1)
+		}
+	case *omap:
+		if y, ok := b.(*omap); ok {
+			if (x == nil) != (y == nil) {
+				return true
+			}
+		}
+	case iface:
+		if y, ok := b.(iface); ok && x.t != nil && y.t != nil {
+			return nilShapeDiffers(x.v, y.v, depth+1)
+		}
+	}
+	return false
+}
+
+func init() {
+	externals["reflect.DeepEqual"] = func(fr *frame, args []value) value {
+		fr.i.x.stub("reflect.DeepEqual (structural equality of interpreter values, nil and empty slices distinguished)")
+		if nilShapeDiffers(args[0], args[1], 0) {
+			return false
+		}
+		return mkBool(deepEqTerm(args[0], args[1], 0))
+	}
+}
